@@ -295,13 +295,13 @@ func admission(c *harness.Ctx) {
 // ---- life cycle ----
 
 type rec struct {
-	Index       uint64 `json:"index"`
-	Activation  uint64 `json:"activation"`
-	Exit        uint64 `json:"exit"`
+	Index        uint64 `json:"index"`
+	Activation   uint64 `json:"activation"`
+	Exit         uint64 `json:"exit"`
 	Withdrawable uint64 `json:"withdrawable"`
-	Slashed     bool   `json:"slashed"`
-	Balance     uint64 `json:"effective_balance"`
-	Known       bool   `json:"known_to_beacon_node"`
+	Slashed      bool   `json:"slashed"`
+	Balance      uint64 `json:"effective_balance"`
+	Known        bool   `json:"known_to_beacon_node"`
 }
 
 const ff = ^uint64(0)
@@ -324,7 +324,9 @@ func genRec(r *rand.Rand, idx uint64) rec {
 	return x
 }
 
-func (x rec) validating(e uint64) bool { return x.Known && x.Activation <= e && e < x.Exit && !x.Slashed }
+func (x rec) validating(e uint64) bool {
+	return x.Known && x.Activation <= e && e < x.Exit && !x.Slashed
+}
 func (x rec) syncEligible(e uint64) bool {
 	if !x.Known || x.Activation > e {
 		return false
@@ -531,7 +533,6 @@ func lifecycle(c *harness.Ctx) {
 	}
 }
 
-
 // concurrentRefresh: lookups overlap refreshes whose validator sets differ; every reported (index, account) pair
 // must be a pair of one of the two sets.
 func concurrentRefresh(c *harness.Ctx) {
@@ -647,12 +648,12 @@ var _ eth2client.ValidatorsProvider = (*beacon)(nil)
 
 func main() {
 	harness.Main(&harness.Spec{
-		Property: "C13",
-		Level:    "exploration",
-		Rule:     "(1) admission: lists of 1-3 specifiers (wallet, wallet/, wallet/regex with classes, .*, grouped and bare alternation, none/one/both anchors) x wallets offering account names with near misses (prefix/suffix/longer names), through the real dirk and wallet managers' refresh; (2) life cycle: 2-8 validator records consistent with the chain (slashed => exit set; activation <= exit <= withdrawable; unknown to the node) x epochs around every boundary x {validating, sync-committee} x {all, by index incl. foreign index}, before and after refreshes that return nothing / fail / change records. distinct = (manager, specifiers, name, admitted) resp. (manager, query kind, epoch, eligible/total, stage); non-trivial = some but not all accounts qualify",
-		Batches:  func(string) int { return 4 },
-		Parallel: 4,
-		Run:      run,
+		Property:    "C13",
+		Level:       "exploration",
+		Rule:        "(1) admission: lists of 1-3 specifiers (wallet, wallet/, wallet/regex with classes, .*, grouped and bare alternation, none/one/both anchors) x wallets offering account names with near misses (prefix/suffix/longer names), through the real dirk and wallet managers' refresh; (2) life cycle: 2-8 validator records consistent with the chain (slashed => exit set; activation <= exit <= withdrawable; unknown to the node) x epochs around every boundary x {validating, sync-committee} x {all, by index incl. foreign index}, before and after refreshes that return nothing / fail / change records. distinct = (manager, specifiers, name, admitted) resp. (manager, query kind, epoch, eligible/total, stage); non-trivial = some but not all accounts qualify",
+		Batches:     func(string) int { return 4 },
+		Parallel:    4,
+		Run:         run,
 		MinDistinct: 200,
 		Assumptions: []string{"wallet part of a specifier is a literal name (documented forms)", "the converse (matching accounts are offered) is asserted only for the documented forms wallet and wallet/regex", "for a bare top-level alternation both readings of 'fully matches' are accepted", "wallets are injected through verif hooks: dirk via its wallet cache, wallet manager via the real fetch/filter functions"},
 	})
